@@ -50,4 +50,35 @@ Corollary zocf_fact_violation_top_rank D facts R w phi :
   exists fin Cinf, R = fin ++ [Cinf] /\ zrank_of R w = S (length fin) /\ (forall u, kz world fin u <= length fin).
 Proof. intros HR Hphi Hw. unfold zocf_partition, zocf_mode in HR.
   destruct facts as [|f r]; [contradiction|]. simpl in HR. eapply fact_violation_top_rank; eauto. Qed.
+
+(* conversely the worlds of finite rank satisfy every fact, and a jointly unsatisfiable fact list is refused: the
+   infinity layer must be spared by some world, which then satisfies all facts *)
+Lemma fact_in_infinity_layer D facts fin Cinf phi :
+  part_ext n (augment D facts) = Some (fin ++ [Cinf]) -> In phi facts -> exists j, In (ac (fact_cond j phi)) Cinf.
+Proof. intros HR Hphi. unfold part_ext in HR.
+  destruct (ext_sound world W (worlds_inhabited n) _ _ _ HR) as [fin' [Cinf' [E [Hm [Hp _]]]]].
+  apply app_inj_tail in E as [<- <-].
+  destruct (fact_conds_in (list_max (map ckey D)) facts phi Hphi) as [j Hj]. exists j.
+  assert (Hin: In (ac (fact_cond j phi)) (concat fin ++ Cinf)).
+  { eapply Permutation_in; [apply Permutation_sym; exact Hp|]. apply in_map. unfold augment. apply in_or_app. now right. }
+  apply in_app_or in Hin as [Hf|Hc]; [|exact Hc].
+  destruct (mtp_layers_verified Cinf fin _ Hm Hf) as [u Hu]. simpl in Hu. rewrite fact_never_verified in Hu. discriminate. Qed.
+
+Theorem finite_rank_satisfies_facts D facts fin Cinf w :
+  part_ext n (augment D facts) = Some (fin ++ [Cinf]) -> zrank_of (fin ++ [Cinf]) w <= length fin -> forallb (eval w) facts = true.
+Proof. intros HR Hr. apply forallb_forall. intros phi Hphi. destruct (eval w phi) eqn:E; [reflexivity|exfalso].
+  destruct (fact_in_infinity_layer _ _ _ _ _ HR Hphi) as [j Hj].
+  rewrite zrank_of_ext in Hr. destruct (nofals world Cinf w) eqn:EN; [|lia].
+  rewrite nofals_in in EN. specialize (EN _ Hj). simpl in EN. rewrite fact_falsified in EN by exact E. discriminate. Qed.
+
+Theorem unsat_facts_refused D facts : facts_sat n facts = false -> part_ext n (augment D facts) = None.
+Proof. intros Hu. destruct (part_ext n (augment D facts)) as [R|] eqn:HR; [exfalso|reflexivity].
+  pose proof HR as HR0. unfold part_ext in HR0.
+  destruct (ext_sound world W (worlds_inhabited n) _ _ _ HR0) as [fin [Cinf [-> [_ [_ [_ [w [Hw Hn]]]]]]]].
+  assert (forallb (eval w) facts = true).
+  { eapply finite_rank_satisfies_facts; [exact HR|]. rewrite zrank_of_ext, Hn. apply finite_ranks_below_top. }
+  unfold facts_sat in Hu. assert (existsb (fun w => forallb (eval w) facts) W = true); [|congruence].
+  apply existsb_exists. eauto. Qed.
+Corollary zocf_unsat_facts_refused D facts : facts <> [] -> facts_sat n facts = false -> zocf_partition n None facts D = None.
+Proof. intros Hne Hu. unfold zocf_partition, zocf_mode. destruct facts; [congruence|]. simpl. apply unsat_facts_refused. exact Hu. Qed.
 End ZF.
